@@ -22,3 +22,6 @@ void fx_carry_ok(uint64_t *a, const uint64_t *b, size_t n) { size_t i; uint64_t 
   crr = ((ai < crr) ? 1 : 0); if (0 != tm) { ai += tm; if (ai < tm) { crr = 1; } } a[i] = ai; } }
 void fx_carry_bad(uint64_t *a, const uint64_t *b, size_t n) { size_t i; uint64_t crr = 0, ai, tm; for (i = 0; i < n; i ++) { ai = a[i] + crr; tm = b[i];
   crr = ((ai < crr) ? 1 : 0); if (0 != tm) { ai += tm; crr = ((ai < tm) ? 1 : 0); } a[i] = ai; } }
+
+void fx_wshift_ok(uint64_t a, uint64_t b, size_t h, uint64_t *lo, uint64_t *hi) { uint64_t l, g; l = (a << h); g = (a >> (64 - h)); *lo = l; *hi = g; (void)b; }
+void fx_wshift_bad(uint64_t a, uint64_t b, size_t h, uint64_t *lo, uint64_t *hi) { uint64_t l, g; l = (a << h); g = (b >> (64 - h)); *lo = l; *hi = g; }
